@@ -75,7 +75,7 @@ G0Of(i) == IF i <= Len(Traces) THEN G0(FixCfg(Traces[i].cfg)) ELSE G0(FixCfg(Tra
 
 TInit == /\ tid = 1 /\ l = 1 /\ g = G0Of(1) /\ bad = "ok"
          /\ cfg = 0 /\ plan = 0 /\ pc = 0 /\ eff = 0 /\ cur = 0 /\ curform = 0 /\ method = 0 /\ body = 0 /\ hdrs = 0
-         /\ resp = 0 /\ outcome = 0 /\ hist = 0 /\ wire = 0 /\ hdrsAlt = 0
+         /\ resp = 0 /\ outcome = 0 /\ hist = 0 /\ wire = 0 /\ hdrsAlt = 0 /\ allpx = 0
 
 NextTrace == tid' = tid + 1 /\ l' = 1 /\ g' = G0Of(tid + 1)
 Verdict(c) == PrintT(<<"VERDICT", tid, l, c>>) /\ NextTrace
@@ -94,7 +94,7 @@ TNext ==
        ELSE LET e == EndClause(c, g, LastAnswer(t), t.outcome, Range(t.skip))
                 d == DialClause(t, c) IN
             Verdict(IF e # "ok" THEN e ELSE IF d # "ok" THEN d ELSE Drift(t))
-    /\ UNCHANGED <<cfg, plan, pc, eff, cur, curform, method, body, hdrs, resp, outcome, hist, wire, bad, hdrsAlt>>
+    /\ UNCHANGED <<cfg, plan, pc, eff, cur, curform, method, body, hdrs, resp, outcome, hist, wire, bad, hdrsAlt, allpx>>
 
 TSpec == TInit /\ [][TNext]_tvars
 =============================================================================
